@@ -285,6 +285,37 @@ def run(ctx):
     if np.abs(M - prior).max() > 1e-9 * np.abs(prior).max():
       ctx.fail_input('prior_returned', 'the prior satisfies all bounds but is not returned unchanged',
                      dict(prior=prior.tolist(), bounds=[lo, hi], pairs=P.tolist(), y=y.tolist()), observed=M.tolist())
+  # the container / number type of explicit bounds is immaterial: integer-valued bounds given as Python ints, an integer
+  # array or floats give the same bounds_ and the same M; a bound of 0 is the documented 1e-9 whatever its type (F28)
+  for rep in range(6 if thorough else 2):
+    data = fits.make_data(rng, d=int(rng.integers(2, 5)))
+    P, y = fits.fit_args('ITML', data)
+    hi = int(rng.integers(2, 8))
+    for lo in (0, 1):
+      ref = None
+      for form, b in (('float list', [float(lo), float(hi)]), ('int list', [lo, hi]), ('int64 array', np.array([lo, hi], dtype=np.int64)),
+                      ('int32 array', np.array([lo, hi], dtype=np.int32)), ('float array', np.array([lo, hi], dtype=float))):
+        ctx.count('bounds_types', 1)
+        ctx.hist('bounds.type', form)
+        inp = dict(estimator='ITML', bounds=[lo, hi], bounds_given_as=form, max_iter=20, pairs=P.tolist(), y=y.tolist())
+        try:
+          with warnings.catch_warnings():
+            warnings.simplefilter('ignore')
+            e = ITML(max_iter=20).fit(P, y, bounds=b)
+        except Exception as ex:
+          ctx.fail_input('bounds_types', 'ITML.fit with bounds %s given as %s raises %s' % ([lo, hi], form, type(ex).__name__), inp,
+                         observed=str(ex)[:200])
+          continue
+        got = (np.asarray(e.bounds_, dtype=float), e.get_mahalanobis_matrix())
+        want_b = np.array([1e-9 if lo == 0 else float(lo), float(hi)])
+        if not np.array_equal(got[0], want_b):
+          ctx.fail_input('bounds_types', 'bounds_ is not the documented one (0 replaced by 1e-9) for bounds given as %s' % form, inp,
+                         observed=got[0].tolist(), expected=want_b.tolist())
+        if ref is None:
+          ref = got
+        elif not np.allclose(got[1], ref[1], rtol=1e-9, atol=1e-12 * np.abs(ref[1]).max()):
+          ctx.fail_input('bounds_types', 'the learned matrix depends on the type the bounds are given in (%s vs float list)' % form, inp,
+                         observed=got[1].tolist(), expected=ref[1].tolist())
   if ok:
     res = ctx.run_cases('c11', HEADER, terms, per_file=4, timeout=1200)
     for r, rec in zip(res, recs):
